@@ -33,6 +33,7 @@ static int32_t h_dispatch_add(enum qb_loop_priority p, int32_t fd, int32_t ev, v
 {
 	for (auto &e : DISP) if (e.fd == fd) return -EEXIST;
 	DISP.push_back(dentry{ fd, ev, data, fn, (int)p }); disp_adds++;
+	if (getenv("IPC_DEBUG")) fprintf(stderr, "   dispatch_add fd %d data %p\n", fd, data);
 	return 0;
 }
 static int32_t h_dispatch_mod(enum qb_loop_priority p, int32_t fd, int32_t ev, void *data, qb_ipcs_dispatch_fn_t fn)
@@ -42,7 +43,7 @@ static int32_t h_dispatch_mod(enum qb_loop_priority p, int32_t fd, int32_t ev, v
 }
 static int32_t h_dispatch_del(int32_t fd)
 {
-	for (size_t i = 0; i < DISP.size(); i++) if (DISP[i].fd == fd) { DISP.erase(DISP.begin() + i); disp_dels++; return 0; }
+	for (size_t i = 0; i < DISP.size(); i++) if (DISP[i].fd == fd) { if (getenv("IPC_DEBUG")) fprintf(stderr, "   dispatch_del fd %d data %p\n", fd, DISP[i].data); DISP.erase(DISP.begin() + i); disp_dels++; return 0; }
 	return -ENOENT;
 }
 static int32_t h_job_add(enum qb_loop_priority p, void *data, qb_loop_job_dispatch_fn fn)
